@@ -99,9 +99,25 @@ def to_z3(v):
     raise Unsupported(f"to_z3({type(v)})")
 
 
-def to_real(v):
+def to_real(v, _depth=0):
+    """Real view of a value. ToReal is pushed through integer sums / differences / constant multiples / ite, so that the int and
+    the float view of the same data produce the same terms (ToReal(a + b) is written ToReal(a) + ToReal(b))."""
     t = to_z3(v)
     if z3.is_int(t):
+        if _depth < 40 and z3.is_app(t):
+            k = t.decl().kind()
+            if z3.is_int_value(t):
+                return z3.RealVal(t.as_long())
+            if k == z3.Z3_OP_ADD:
+                return z3.Sum([to_real(c, _depth + 1) for c in t.children()])
+            if k == z3.Z3_OP_SUB and t.num_args() == 2:
+                return to_real(t.arg(0), _depth + 1) - to_real(t.arg(1), _depth + 1)
+            if k == z3.Z3_OP_UMINUS:
+                return -to_real(t.arg(0), _depth + 1)
+            if k == z3.Z3_OP_MUL and t.num_args() == 2 and (z3.is_int_value(t.arg(0)) or z3.is_int_value(t.arg(1))):
+                return to_real(t.arg(0), _depth + 1) * to_real(t.arg(1), _depth + 1)
+            if k == z3.Z3_OP_ITE:
+                return z3.If(t.arg(0), to_real(t.arg(1), _depth + 1), to_real(t.arg(2), _depth + 1))
         return z3.ToReal(t)
     if z3.is_bool(t):
         return z3.If(t, z3.RealVal(1), z3.RealVal(0))
@@ -552,11 +568,12 @@ class Arith:
         if self.policy == "exact":
             raise NonLinear(f"product of two symbolic terms in exact regime: {a} * {b}")
         ra, rb = to_real(a), to_real(b)
-        if ra.get_id() > rb.get_id():
-            ra, rb = rb, ra
-        m = self.f_mul(ra, rb)
+        # commutative by construction, independently of how the operands are written: m = f(a, b) + f(b, a)
+        # (ordering the operands by AST id or structure is not enough - two executions may build semantically equal but
+        # structurally different operands, and the order must not depend on that)
+        m = self.f_mul(ra, rb) + self.f_mul(rb, ra) if not ra.eq(rb) else self.f_mul(ra, ra)
         self.uf_apps += 1
-        key = ("mul", ra.get_id(), rb.get_id())
+        key = ("mul", min(ra.get_id(), rb.get_id()), max(ra.get_id(), rb.get_id()))
         if key not in self._lemma_keys:
             facts = [
                 z3.Implies(ra == 0, m == 0),
@@ -755,6 +772,8 @@ class Arith:
             # real_compare: an integer unknown against a constant is compared in the reals, so that int16 and float64
             # views of the same data produce the same terms
             ta, tb = to_real(ta), to_real(tb)
+        if ta.eq(tb):
+            return op in ("==", "<=", ">=")
         if op == "==":
             r = ta == tb
         elif op == "!=":
